@@ -587,6 +587,27 @@ example : (discoverTimed genLayout ['m', 'e'] 77 1000 103
        { t := 1103, ready := some (4, exResp 77) }, { t := 1104, ready := some (6, exResp 77) }]).toOption =
     some [{ name := exCtx.name, addr := 3, port := 40001 }] := by decide +kernel
 
+/-! ## context start: the responder is reachable only once what it reports is final -/
+
+/-- obligation on the current source (regenerated from the AST of `QMI_Context.start()`, of the responder and of
+`MessageRouter`): no call that assigns a field the responder reports comes after the call that starts the responder -/
+theorem gen_start_order_ok : orderOk genStartCalls = true := by decide
+
+/-- what the obligation buys: in every intermediate state of `start()` in which the responder is up, the reported
+TCP port is already the one the context ends up with — so an answer given *during* start carries the final port,
+never 0 and never a port that is not bound -/
+theorem start_order_final (bound : Nat) (calls pre post : List StartCall) (hok : orderOk calls = true)
+    (hsplit : calls = pre ++ post) (hup : (lrun bound { port := 0, up := false } pre).up = true) :
+    (lrun bound { port := 0, up := false } pre).port = (lrun bound { port := 0, up := false } calls).port :=
+  start_order_port_final bound { port := 0, up := false } calls pre post rfl hok hsplit hup
+
+/-- the order of the seeded change (responder first, then the TCP server) does not meet the obligation, and the
+state it allows: responder up while the reported port is still 0, final port 40000 -/
+example : orderOk [.other, .startsResponder, .setsReported] = false ∧
+    lrun 40000 { port := 0, up := false } [.other, .startsResponder] = { port := 0, up := true } ∧
+    (lrun 40000 { port := 0, up := false } [.other, .startsResponder, .setsReported]).port = 40000 ∧
+    orderOk [.other, .setsReported, .startsResponder] = true := by decide
+
 /-! ## end to end -/
 
 /-- **the whole property in one statement.**  A context asks with filters `wgf`, `cnf` (any text without NUL
